@@ -14,7 +14,7 @@ CLANG_IR = ['clang++-14', '-std=c++17', '-O1', '-fno-vectorize', '-fno-slp-vecto
             '-fno-rtti-data' if False else '-fno-strict-aliasing', '-DBOOST_ASIO_DISABLE_THREADS', '-DBOOST_ASIO_NO_DEPRECATED', '-DBOOST_MQTT5_VERIF',
             '-DBOOST_DISABLE_ASSERTS', '-DNDEBUG',
             '-I' + os.path.join(VERIF, 'shadow'), '-I' + os.path.join(REPO, 'include'), '-I' + os.path.join(VERIF, 'harness'), '-S', '-emit-llvm']
-NATIVE = ['g++', '-std=c++17', '-O1', '-g', '-fno-omit-frame-pointer', '-fsanitize=address,undefined', '-fno-sanitize-recover=undefined',
+NATIVE = ['clang++-14', '-std=c++17', '-O0', '-gline-tables-only', '-fno-omit-frame-pointer', '-fsanitize=address,undefined', '-fno-sanitize-recover=undefined',
           '-fno-exceptions', '-DBOOST_ASIO_DISABLE_THREADS', '-DBOOST_ASIO_NO_DEPRECATED', '-DBOOST_MQTT5_VERIF', '-DBOOST_DISABLE_ASSERTS', '-DNDEBUG', '-DVK_NATIVE',
           '-I' + os.path.join(VERIF, 'shadow'), '-I' + os.path.join(REPO, 'include'), '-I' + os.path.join(VERIF, 'harness'), '-rdynamic']
 
@@ -37,7 +37,7 @@ def compile_native(tu, defs, outdir, clock=False):
     t0 = time.time()
     cmd = NATIVE + defs_flags(defs) + (['-DVK_STUB_CLOCK'] if clock else []) + [os.path.join(VERIF, tu), os.path.join(VERIF, 'harness/vk_native.cpp'), '-o', exe, '-ldl']
     r = subprocess.run(cmd, capture_output=True, text=True)
-    if r.returncode != 0: raise RuntimeError('g++ failed for %s:\n%s' % (tu, r.stderr[-4000:]))
+    if r.returncode != 0: raise RuntimeError('native build failed for %s:\n%s' % (tu, r.stderr[-4000:]))
     return exe, time.time() - t0
 
 # ---------------------------------------------------------------- engine B workers
